@@ -206,6 +206,8 @@ func vCheckTree(depth, teeKidDepth int) {
 	for _, h := range hooks {
 		vrt.Assert("hook-once-iff-wrapped-core-accepted", *h == wantHooks[h])
 	}
+	vrt.Observe("delivered", total)
+	vrt.Observe("enabled", enabled)
 	vrt.Assert("enabled-consistent-with-delivery", enabled == (total > 0))
 
 	// reported minimum level: the least valid level at which anything is delivered
@@ -252,6 +254,7 @@ func VC05IncreaseArbitrary() {
 	if ce != nil {
 		ce.Write()
 	}
+	vrt.Observe("delivered", len(leaf.shared.writes))
 	vrt.Assert("only-narrows", (len(leaf.shared.writes) == 1) == want)
 	vrt.Assert("enabled-consistent-with-delivery", c.Enabled(l) == want)
 }
